@@ -77,14 +77,18 @@ def _row_effect(row, blob, expected):
     return 'same'
 
 
-def run_validate(folder):
+def run_validate(folder, table=None):
+    """('clean' | 'issues' | 'raised', names of the contents the report mentions)."""
+    import dataclasses  # pylint: disable=import-outside-toplevel
     from disk_objectstore import Container  # pylint: disable=import-outside-toplevel
     cont = Container(folder)
     try:
         issues = cont.validate()
-        return 'clean' if issues.is_valid() else 'issues'
+        name_of = {hashlib.sha256(data).hexdigest(): name for name, data in (table or {}).items()}
+        named = sorted({name_of.get(key, str(key)[:8]) for field in dataclasses.fields(issues) for key in getattr(issues, field.name)})
+        return ('clean' if issues.is_valid() else 'issues'), named
     except Exception:  # noqa pylint: disable=broad-except
-        return 'raised'
+        return 'raised', []
     finally:
         cont.close()
 
@@ -157,11 +161,11 @@ def _worker(job):
             try:
                 apply(folder, action)
                 eff, _state = effects(folder, table)
-                val = run_validate(folder)
+                val, named = run_validate(folder, table)
             except sqlite3.IntegrityError:
                 shutil.rmtree(folder, ignore_errors=True)
                 continue
-            lines.append({'damage': desc, 'effects': eff, 'val': val})
+            lines.append({'damage': desc, 'effects': eff, 'val': val, 'named': named})
             shutil.rmtree(folder, ignore_errors=True)
     return lines
 
@@ -180,7 +184,8 @@ def check_C12(report: common.Report):
         table = build(base)
         items = list(damages(base, table, thorough, rng))
         eff0, _ = effects(base, table)
-        lines = [{'damage': {'kind': 'none', 'target': '', 'pos': 0, 'bit': 0}, 'effects': eff0, 'val': run_validate(base)}]
+        val0, named0 = run_validate(base, table)
+        lines = [{'damage': {'kind': 'none', 'target': '', 'pos': 0, 'bit': 0}, 'effects': eff0, 'val': val0, 'named': named0}]
         for part in common.pmap(_worker, [(base, table, chunk) for chunk in common.chunks(items, 32)]):
             lines += part
         trace_file = os.path.join(work, 'damage.ndjson')
@@ -189,7 +194,7 @@ def check_C12(report: common.Report):
                 handle.write(json.dumps(line) + '\n')
         cfg = os.path.join(work, 'DamageTrace.cfg')
         with open(cfg, 'w', encoding='utf8') as handle:
-            handle.write('SPECIFICATION Spec\nINVARIANT C12_NeverCleanOnDamage\nINVARIANT C12_BaselineClean\nCHECK_DEADLOCK FALSE\n')
+            handle.write('SPECIFICATION Spec\nINVARIANT C12_NeverCleanOnDamage\nINVARIANT C12_BaselineClean\nINVARIANT C12_NamesTheObjectOrFails\nCHECK_DEADLOCK FALSE\n')
         res = tlc.run('DamageTrace', cfg, workers=1, timeout=1500, args=['-continue'], env={'TRACE_FILE': trace_file})
     hits = []
     for chunk in re.split(r'(?=Error: Invariant \w+ is violated)', res.output):
